@@ -216,6 +216,8 @@ def variants(base, ver, kind):
     if "id" in base and isinstance(base["id"], str) and "--" in base["id"]:
         out.append(("zero-uuid", with_uuid(base, ZERO)))      # only relaxed (interoperability) mode admits it
         out.append(("v1-uuid", with_uuid(base, V1)))          # 2.1 admits it, 2.0 does not
+        if sum(map(ord, str(base.get("type")))) % 4 == 0:
+            out.append(("upper-uuid", with_uuid(base, base["id"].split("--", 1)[1].upper())))   # text shape: upper-case hex
     if kind != "bundle":
         if "spec_version" in base:
             d = dict(base)
@@ -885,6 +887,11 @@ def check(run):
     order_oracle(run, probes[:n_plain])
 
     _tick(run, 'order')
+    # ---- position independence of the identifier rule; process environment ----------------------------------------
+    idpos_oracle(run, probes[:n_plain])
+    tz_oracle(run, [cases[k] for k in plain_idx], [impl[k] for k in plain_idx])
+    _tick(run, 'idpos_tz')
+
     # ---- outside the domain of `emitted`: a custom 2.0 object and a custom 2.1 observable of the same name ----------
     col = common.run_impl("c14_impl", [{"op": "collide", "name": "x-c14-collide"}], procs=1)[0]
     run.count({"collide": 1}, nontrivial=True)
@@ -916,6 +923,10 @@ def check(run):
                     {"op": "bundle", "version": "2.0", "members": [member20]},
                     {"op": "bundle", "version": "2.1", "members": [member21]},
                     {"op": "bundle", "version": "2.1", "members": [member21, dict(member21, id="identity--" + V1)]}]
+    for n_members in (9, 10, 11, 63, 64, 65, 100, 101) if run.tier == "thorough" else (9, 10, 11, 64, 65):
+        for ver, mem in (("2.0", member20), ("2.1", member21)):
+            bundle_cases.append({"op": "bundle", "version": ver, "members": [
+                dict(mem, id="identity--" + fresh_uuid(run.rng, 4)) for _ in range(n_members)]})
     own_res = common.run_impl("c14_impl", own_cases + bundle_cases)
     built = 0
     for c, r in zip(own_cases + bundle_cases, own_res):
@@ -984,6 +995,101 @@ def check(run):
     ]
 
 
+def uuid_kinds(rng):
+    """(label, text) of UUID texts the versions / strictness levels treat differently"""
+    def mk(nib, variant=0x80):
+        b = bytearray(rng.getrandbits(8) for _ in range(16))
+        b[6] = (b[6] & 0x0F) | (nib << 4)
+        b[8] = (b[8] & 0x3F) | variant
+        return str(uuid.UUID(bytes=bytes(b)))
+    return [("v1", mk(1)), ("v3", mk(3)), ("v4", mk(4)), ("v5", mk(5)), ("v4-upper", mk(4).upper()), ("zero", ZERO),
+            ("ncs-variant", mk(4, 0x00)), ("future-variant", mk(4, 0xE0))]
+
+
+def idpos_oracle(run, probes):
+    """Position independence: the same UUID text, under the same spec version and strictness, gets the same verdict as an
+    object's own `id` and as a reference held by an object (property level: IDProperty vs ReferenceProperty; object level:
+    own id vs created_by_ref / object_marking_refs of registered objects of that version)."""
+    cases = []
+    hosts = [p for p in probes if p["variant"] == "base" and p["kind"] == "object" and "created" in p["data"]
+             and isinstance(p["data"].get("id"), str)]
+    hosts = hosts if run.tier == "thorough" else hosts[::4]
+    for sv in ("2.0", "2.1"):
+        for io_ in (False, True):
+            for label, u in uuid_kinds(run.rng):
+                cases.append({"op": "idpos", "label": label, "value": "identity--" + u, "spec_version": sv, "interop": io_})
+                for p in hosts:
+                    if p["ver"] != sv:
+                        continue
+                    for key, val in (("created_by_ref", "identity--" + u), ("object_marking_refs", "marking-definition--" + u)):
+                        if key == "object_marking_refs" and p["data"].get("type") == "marking-definition":
+                            continue
+                        cases.append({"op": "idpos", "label": label, "value": val, "spec_version": sv, "interop": io_,
+                                      "object": p["data"], "key": key, "cid": p["cid"]})
+    res = common.run_impl("c14_impl", cases, procs=min(common.NCPU, 8))
+    n = 0
+    for c, r in zip(cases, res):
+        run.count({"idpos": c}, nontrivial=True)
+        bad = None
+        if "object" not in c and r["id"] in ("ok", "invalid") and r["ref"] in ("ok", "invalid") and r["id"] != r["ref"]:
+            bad = "IDProperty(..).clean -> %s, ReferenceProperty(..).clean -> %s" % (r["id"], r["ref"])
+        if "object" in c:
+            own, held = r["own_id"], r["held_ref"]
+            inv_own = own[0] == "exc" and own[3] == "id"
+            inv_held = held[0] == "exc" and held[3] == c["key"]
+            clean_own = own[0] == "ok" or inv_own
+            clean_held = held[0] == "ok" or inv_held
+            if clean_own and clean_held and inv_own != inv_held:
+                bad = "as the object's own id -> %s, as its %s -> %s" % (short(own + [None]), c["key"], short(held + [None]))
+        if bad:
+            n += 1
+            run.violations.append(Violation(
+                "the %s UUID %s under spec version %s (interoperability=%s) is judged differently by position%s: %s"
+                % (c["label"], c["value"].split("--", 1)[1], c["spec_version"], c["interop"],
+                   " in <%s>" % c["cid"] if "cid" in c else "", bad), {"kind": "idpos", "case": c}, finding=None))
+    run.coverage["idpos_cases"] = len(cases)
+    run.coverage["idpos_differences"] = n
+
+
+def idpos_bad(c, r):
+    if "object" not in c:
+        return r["id"] in ("ok", "invalid") and r["ref"] in ("ok", "invalid") and r["id"] != r["ref"]
+    own, held = r["own_id"], r["held_ref"]
+    inv_own = own[0] == "exc" and own[3] == "id"
+    inv_held = held[0] == "exc" and held[3] == c["key"]
+    return (own[0] == "ok" or inv_own) and (held[0] == "ok" or inv_held) and inv_own != inv_held
+
+
+def tz_oracle(run, cases, base):
+    """Process environment: a share of the entry-point cases again in a worker under a non-UTC POSIX zone; same answers."""
+    idx = list(range(0, len(cases), 11 if run.tier != "thorough" else 5))
+    if not idx:
+        return
+    old = os.environ.get("TZ")
+    os.environ["TZ"] = "JST-9"
+    try:
+        res = common.run_impl("c14_impl", [cases[k] for k in idx])
+    finally:
+        if old is None:
+            os.environ.pop("TZ", None)
+        else:
+            os.environ["TZ"] = old
+    n = 0
+    for k, r in zip(idx, res):
+        a = {x: base[k].get(x) for x in ("entries", "direct", "direct_bundle")}
+        b = {x: r.get(x) for x in ("entries", "direct", "direct_bundle")}
+        if a != b:
+            n += 1
+            j = next((i for i, (x, y) in enumerate(zip(a["entries"], b["entries"])) if x != y), None)
+            if j is not None and n <= 3:
+                e, cfg = cases[k]["entries"][j]
+                run.violations.append(Violation(
+                    "%s(.., %s) answers %s under TZ=JST-9 and %s in the default environment" % (e, cfg, short(b["entries"][j]), short(a["entries"][j])),
+                    {"kind": "entry", "entry": e, "cfg": cfg, "data": cases[k]["data"], "env": {"TZ": "JST-9"}}, finding=None))
+    run.coverage["tz_cases"] = len(idx)
+    run.coverage["tz_differences"] = n
+
+
 ORDER_ENTRIES = ["parsing.parse", "memory.MemoryStore.add", "filesystem.FileSystemSource.get"]
 
 
@@ -1009,6 +1115,25 @@ def order_cases(run, probes):
                 for e in ORDER_ENTRIES:
                     cases.append({"op": "order", "how": "id", "cid": p["cid"], "entry": e, "first": first, "second": second, "ac": True,
                                   "prime": seen, "seen": seen, "fresh": fresh, "ids": [ua, ub]})
+            if nib == 4:
+                # caches keyed on the value: flag variant A first, then B, on the same content
+                ua2, ub2 = fresh_uuid(run.rng, 4), fresh_uuid(run.rng, 4)
+                # (a) relaxed first, then strict: an id only relaxed mode admits (non-RFC variant bits)
+                def ncs(x):
+                    return x[:19] + "0" + x[20:]
+                s2, f2 = with_uuid(d, ncs(ua2)), with_uuid(d, ncs(ub2))
+                ver = p["ver"]
+                cases.append({"op": "order", "how": "flags:interoperability", "cid": p["cid"], "entry": "parsing.parse", "first": ver,
+                              "second": ver, "ac": True, "first_flags": {"allow_custom": True, "interoperability": True},
+                              "second_flags": {"allow_custom": True}, "prime": s2, "seen": s2, "fresh": f2, "ids": [ncs(ua2), ncs(ub2)]})
+                # (b) allow_custom first, then strict about custom content
+                s3, f3 = dict(seen, x_c14=1), dict(fresh, x_c14=1)
+                cases.append({"op": "order", "how": "flags:allow_custom", "cid": p["cid"], "entry": "parsing.parse", "first": ver,
+                              "second": ver, "ac": True, "first_flags": {"allow_custom": True},
+                              "second_flags": {"allow_custom": False}, "prime": s3, "seen": s3, "fresh": f3, "ids": [ua, ub]})
+                # (c) the same question twice (and then once more), version named
+                cases.append({"op": "order", "how": "twice", "cid": p["cid"], "entry": "memory.MemoryStore.add", "first": ver,
+                              "second": ver, "ac": True, "twice": True, "prime": seen, "seen": seen, "fresh": fresh, "ids": [ua, ub]})
             if "created" in d and "created_by_ref" not in d or isinstance(d.get("created_by_ref"), str):
                 ident = {"type": "identity", "id": "identity--" + ua, "name": "n", "identity_class": "individual",
                          "created": "2020-01-01T00:00:00.000Z", "modified": "2020-01-01T00:00:00.000Z"}
@@ -1312,6 +1437,15 @@ def replay(payload):
             print("  the content was interpreted as version %s, not the version named (%s)" % (out[-1], v))
             bad = True
         if bad:
+            print("VIOLATION property=C14 replay=(given)")
+            return 1
+        print("no violation on this input")
+        return 0
+    if r.get("kind") == "idpos":
+        c = r["case"]
+        res = common.run_impl("c14_impl", [c], procs=1)[0]
+        print("replay: UUID %s under spec version %s, interoperability=%s: %s" % (c["value"], c["spec_version"], c["interop"], res))
+        if idpos_bad(c, res):
             print("VIOLATION property=C14 replay=(given)")
             return 1
         print("no violation on this input")
